@@ -821,10 +821,10 @@ SUBCHECKS = [
              rule="G.precip_cases: 1:1 salts, 3 chains, rref_preserv=True, tol=1e-12"),
     SubCheck("precipitation_1_2", check_precip, strategy=G.precip_cases(salts=(4,)), quick=60, thorough=3000, tolerances=_TOL,
              rule="CaF2(s) = Ca+2 + 2 F-: same oracle with Q = [Ca][F]^2"),
-    SubCheck("precipitation_near", check_precip, strategy=G.precip_near_cases(), quick=240, thorough=12000, tolerances=_TOL,
+    SubCheck("precipitation_near", check_precip, strategy=G.precip_near_cases(), quick=700, thorough=12000, tolerances=_TOL,
              rule="G.precip_near_cases: 1:1 salts, initial states whose all-dissolved ion product is Ksp(1 + delta), "
                   "|delta| log-uniform in [1e-9, 1e-2], both signs, with and without initial solid; same oracle"),
-    SubCheck("precipitation_near_1_2", check_precip, strategy=G.precip_near_cases(salts=(4,)), quick=120, thorough=4000,
+    SubCheck("precipitation_near_1_2", check_precip, strategy=G.precip_near_cases(salts=(4,)), quick=300, thorough=4000,
              tolerances=_TOL, rule="CaF2 near saturation: [Ca][F]^2 = Ksp(1 + delta) when all dissolved"),
     SubCheck("series", check_series, strategy=G.c08_series_cases(), quick=160, thorough=6000, tolerances=_TOL,
              rule="G.c08_series_cases: EqSystem.roots (1 varied substance; chains default, (Log, Lin), (Lin,)) and "
